@@ -148,7 +148,10 @@ def run_history(ws, history, keep=False):
             history["probe_report"] = prep
             if prep.get("status") != "completed" or not total_calls:
                 return [dict(prep, probe=True)]
+        finished = False
         for i, step in enumerate(history["steps"]):
+            if finished and not step.get("final_resume"):
+                continue
             if step.get("kill_frac") is not None:
                 step = dict(step)
                 step["kill_after"] = max(
@@ -164,7 +167,8 @@ def run_history(ws, history, keep=False):
                 break
             if history.get("until_completed") and rep["status"] == \
                     "completed":
-                break
+                # only steps that resume the finished run are still executed
+                finished = True
         return reports
     finally:
         if not keep:
